@@ -52,6 +52,8 @@ Section Spec.
         (fold_left (fun l k => match hd_error (rev (map snd (filter (fun kv => str_eqb (fst kv) k) u))) with
                                | Some v => setitem_s k v l | None => l end) (map fst u) l, VNone)
     | OExtend u => (l ++ u, VNone)
+    (* the argument is the dict itself: the pairs it holds when the call is made are appended once *)
+    | OExtendSelf => (l ++ l, VNone)
     | OClear => ([], VNone)
     | OCopy => (l, VNone)
     end.
